@@ -737,3 +737,31 @@ Example C03_encode_deterministic_ex :
   fst (exec w [d; f; d]) = fst (exec w [f; d; d]) /\ nth 0 (fst (exec w [d; f])) [] <> repeat 7 320.
 Proof. exact encode_deterministic_ex. Qed.
 Print Assumptions C03_encode_deterministic_ex.
+
+(* ENCODERS ARE READ-ONLY IN EVERY ARGUMENT EXCEPT THE DESTINATION.  Calls whose slice arguments live in the
+   same world of arrays as the destination (sharing arrays, lying directly behind one another, aliasing each
+   other): whatever the call reads, it writes the destination array only — every array that is not the
+   destination of some call of the schedule is unchanged.  Tie: harness kind ro (every slice-typed argument a
+   view with spare capacity into one sentinel-filled array, the other arguments directly behind it; the array is
+   compared before / after; found and repaired: DHCP4.AppendOptions appended behind the caller's order slice,
+   repo commit b30e8a5). *)
+Theorem C03_encode_args_unchanged : forall (cs : list acall) (w : world) (j : nat),
+  Forall (fun c => a_dst c <> j) cs -> nth j (aexec w cs) [] = nth j w [].
+Proof. exact encode_args_unchanged. Qed.
+Print Assumptions C03_encode_args_unchanged.
+
+Example C03_encode_args_unchanged_ex :
+  let w := [repeat 7 320; [1; 3; 6]; [9; 8; 7; 6]] in
+  let c := dhcp4_acall 0 0 2 5 [192;168;0;9] 1 2 61 in
+  nth 1 (aexec w [c]) [] = [1; 3; 6] /\ nth 2 (aexec w [c]) [] = [9; 8; 7; 6] /\ nth 0 (aexec w [c]) [] <> nth 0 w [].
+Proof. exact encode_args_unchanged_ex. Qed.
+Print Assumptions C03_encode_args_unchanged_ex.
+
+(* EncodeEther with MAC arguments that alias the destination (as found, pinned by kind ethalias): a source MAC
+   lying in b[0:6] is read after the destination MAC has been written there *)
+Example C03_ether_alias_src_in_header :
+  let b := mkSlice [1;2;3;4;5;6; 11;12;13;14;15;16; 0;0; 21;22;23;24;25;26] 0 in
+  exists r, encode_ether_aliased b 2048 0 6 14 6 = Ok r /\
+            ether_dst r = Ok [21;22;23;24;25;26] /\ ether_src r = Ok [21;22;23;24;25;26].
+Proof. exact ether_alias_src_in_header. Qed.
+Print Assumptions C03_ether_alias_src_in_header.
